@@ -1,7 +1,12 @@
 /* harness/h_table.c — engine `table` (C02): runs op files on the real Table of /repo (unity build, white box).
  *
  * Eight table variables (0..7), all `new_raw(Table, Int, Int)` at start.  Ops (one per line):
- *   new <t> <I|S|P>          tables[t] = new_raw(Table, Int,Int | String,Int | PKey,PVal)      (old one deleted)
+ *   new <t> <kind>           tables[t] = new_raw(Table, K, V)      (old one deleted); kinds: I Int,Int  S String,Int  P PKey,PVal (24/16 bytes)
+ *                            V Int,String (a value that owns memory)  W String,String  J Int,PVal (ksize 8 < vsize 16)
+ *                            Q QKey,Int (a key type of 12 bytes: Table_Size_Round makes it 16).  Values are integers in the op file;
+ *                            a String value is its decimal text.  Key tokens of V, J are those of I; of W those of S; of Q those of P.
+ *   newm <t> <kind>          the same with new(Table, K, V): the table is managed by the collector
+ *   gc                       GC_Mark + GC_Sweep of the collector, then every table is verified against its map
  *   set <t> <key> <val>      key: kind I `<int>`, kinds S/P `<text>:<hash>`   (P: text = decimal id, hash = what its Hash returns;
  *   rem|get|mem <t> <key>                                                      S: hash must be the real hash(text), it is checked;
  *                            S text: letters, digits, `_`, and `~hh` (two lower-case hex digits) for any other non-zero byte, so that
@@ -11,6 +16,13 @@
  *   getk <t> <key>           p = the key object the table stores for <key> (record of v = get(t, key)); get(t, p)   (path of foreach + get)
  *   getv <t> <key>           get(t, get(t, key)): the key argument is the *value* object of one of the table's own records (since fix
  *                            bc940bb it is read like any other object: cast to the key type, hashed, probed)
+ *   seta <t> <kref> <vref>   set(t, K, V) / rem(t, K) / mem(t, K) / get(t, K) where the argument objects may live in the table's OWN slot array:
+ *   rema|mema|geta <t> <kref>  kref = o=<key> (an object outside, as in set/rem/mem/get) | k=<key> (the key object the table stores for <key>:
+ *                            what foreach hands out) | v=<key> (the VALUE object of the record of <key>, read as a key);  vref = o=<int> | v=<key>
+ *                            (the value object of that record: what get returned) | k=<key> (its stored key object, read as a value).
+ *                            k= / v= of an unbound key name no object: `bad-op`, nothing is called.  An object read as the other type goes
+ *                            through the cast (ValueError) — kinds whose key and value types are the same: I (looked up), W (`bad-op`: the op
+ *                            file cannot say what the text hashes to).
  *   newp <t> <I|S|P> k1 v1 ... kn vn [k]   tables[t] = new(Table, K, V, k1, v1, ...)  (a trailing single token: odd count, FormatError)
  *   assignm <t> <I|S|P> k1 v1 ... kn vn    assign(tables[t], m) for a map m that is not a Table: a probe type (Len, Iter, Get with key_type/val_type)
  *                            whose foreach yields the keys in the order given and whose get answers the value paired with the key object (n <= 30)
@@ -30,7 +42,12 @@
 #define MAXW 72
 #define MAXPAIRS 32
 
-enum { KI, KS, KP };
+enum { KI, KS, KP, KV, KW, KJ, KQ, NKIND };
+enum { CINT, CSTR, CPROBE, CQ };          /* key / value classes */
+static const char KINDCH[] = "ISPVWJQ";
+static int kcls(int kind) { return kind == KS || kind == KW ? CSTR : kind == KP ? CPROBE : kind == KQ ? CQ : CINT; }
+static int vcls(int kind) { return kind == KV || kind == KW ? CSTR : kind == KP || kind == KJ ? CPROBE : CINT; }
+static int kind_of_char(char c) { const char* p = c ? strchr(KINDCH, c) : NULL; return p ? (int)(p - KINDCH) : -1; }
 
 /* ------------------------------------------------------------------ probe element types (own Assign / destructor / Cmp / Hash) */
 struct PKey { int64_t id; uint64_t hash; char* tok; };
@@ -61,6 +78,12 @@ static void PVal_Del(var self) {
   if (a->tok) { free(a->tok); a->tok = NULL; probe_live--; } else probe_double++;
 }
 static void Probe_New(var self, var args) { }
+/* a key type whose size is not a multiple of 8 (12 bytes -> Table_Size_Round 16); the hash is (uint32) h */
+struct QKey { int32_t id; uint32_t h; int32_t pad; };
+static void QKey_Assign(var self, var obj) { struct QKey* a = self; struct QKey* b = obj; a->id = b->id; a->h = b->h; a->pad = 0x5a5a5a5a; }
+static int QKey_Cmp(var self, var obj) { struct QKey* a = self; struct QKey* b = obj; return a->id < b->id ? -1 : a->id > b->id ? 1 : 0; }
+static uint64_t QKey_Hash(var self) { return ((struct QKey*)self)->h; }
+var QKey = Cello(QKey, Instance(New, Probe_New, NULL), Instance(Assign, QKey_Assign), Instance(Cmp, QKey_Cmp), Instance(Hash, QKey_Hash));
 var PKey = Cello(PKey, Instance(New, Probe_New, PKey_Del), Instance(Assign, PKey_Assign), Instance(Cmp, PKey_Cmp), Instance(Hash, PKey_Hash));
 var PVal = Cello(PVal, Instance(New, Probe_New, PVal_Del), Instance(Assign, PVal_Assign));
 
@@ -125,7 +148,7 @@ static void map_copy(OMap* dst, OMap* src) {
 /* one hash per key name and kind (a hash *function*): same rule as the Lean driver */
 static OMap seen;
 static int seen_ok(int kind, const char* name, uint64_t hash) {
-  char tag[48]; snprintf(tag, sizeof tag, "%c%s", kind == KI ? 'I' : kind == KS ? 'S' : 'P', name);
+  char tag[48]; snprintf(tag, sizeof tag, "%c%s", kcls(kind) == CINT ? 'I' : kcls(kind) == CSTR ? 'S' : kcls(kind) == CPROBE ? 'P' : 'Q', name);
   ONode* n = map_find(&seen, tag);
   if (n) return n->hash == hash;
   map_set(&seen, tag, hash, 0); return 1;
@@ -164,12 +187,17 @@ static int decode_name(const char* txt, size_t len, char* raw, size_t n) {
   raw[o] = 0; return (int)o;
 }
 static void obj_key_name(int kind, var k, char* out, size_t n) {
-  if (kind == KI) snprintf(out, n, "%" PRId64, (int64_t)c_int(k));
-  else if (kind == KS) encode_name(c_str(k), out, n);
+  if (kcls(kind) == CINT) snprintf(out, n, "%" PRId64, (int64_t)c_int(k));
+  else if (kcls(kind) == CSTR) encode_name(c_str(k), out, n);
+  else if (kcls(kind) == CQ) snprintf(out, n, "%" PRId64, (int64_t)((struct QKey*)k)->id);
   else snprintf(out, n, "%" PRId64, ((struct PKey*)k)->id);
 }
 static void slot_key_name(struct Table* t, int kind, size_t i, char* out, size_t n) { obj_key_name(kind, Table_Key(t, i), out, n); }
-static int64_t val_int(int kind, var v) { return kind == KP ? ((struct PVal*)v)->v : (int64_t)c_int(v); }
+static int64_t val_int(int kind, var v) {
+  if (vcls(kind) == CPROBE) return ((struct PVal*)v)->v;
+  if (vcls(kind) == CSTR) return (int64_t)strtoll(c_str(v), NULL, 10);
+  return (int64_t)c_int(v);
+}
 static int64_t slot_val(struct Table* t, int kind, size_t i) { return val_int(kind, Table_Val(t, i)); }
 
 #define FNVP 1099511628211ULL
@@ -227,7 +255,7 @@ static int parse_u64(const char* s, uint64_t* out) {
 static int parse_key(int kind, const char* tok, KeyTok* k) {
   memset(k, 0, sizeof *k);
   const char* colon = strchr(tok, ':');
-  if (kind == KI) {
+  if (kcls(kind) == CINT) {
     if (colon) return 0;
     if (!parse_i64(tok, &k->id)) return 0;
     snprintf(k->name, sizeof k->name, "%" PRId64, k->id); k->hash = (uint64_t)k->id; return 1;
@@ -236,21 +264,31 @@ static int parse_key(int kind, const char* tok, KeyTok* k) {
   size_t nl = colon - tok; if (nl == 0 || nl >= 32) return 0;
   char nm[40]; memcpy(nm, tok, nl); nm[nl] = 0;
   if (!parse_u64(colon + 1, &k->hash)) return 0;
-  if (kind == KS) {
+  if (kcls(kind) == CSTR) {
     if (decode_name(nm, nl, k->raw, sizeof k->raw) <= 0) return 0;
     snprintf(k->name, sizeof k->name, "%s", nm); return 1;
   }
   if (!parse_i64(nm, &k->id)) return 0;
+  if (kcls(kind) == CQ && (k->id < INT32_MIN || k->id > INT32_MAX || k->hash > UINT32_MAX)) return 0;
   snprintf(k->name, sizeof k->name, "%" PRId64, k->id); return 1;
 }
-#define KEYOBJ(kind, k) ((kind) == KI ? (var)$I((k).id) : (kind) == KS ? (var)$S((k).raw) : (var)$(PKey, (k).id, (k).hash, NULL))
-#define VALOBJ(kind, v) ((kind) == KP ? (var)$(PVal, (v), NULL) : (var)$I(v))
-
-static var make_table(int kind) {
-  if (kind == KI) return new_raw(Table, Int, Int);
-  if (kind == KS) return new_raw(Table, String, Int);
-  return new_raw(Table, PKey, PVal);
+static char valtxt_buf[32];
+static char* valtxt(int64_t v) { snprintf(valtxt_buf, sizeof valtxt_buf, "%" PRId64, v); return valtxt_buf; }
+/* an argument object of seta / rema / mema / geta */
+typedef struct { char form; KeyTok k; int64_t v; } RefTok;
+static int parse_key(int kind, const char* tok, KeyTok* k);
+static int parse_ref(int kind, const char* tok, int valpos, RefTok* r) {
+  if (strlen(tok) < 3 || tok[1] != '=' || !strchr("okv", tok[0])) return 0;
+  r->form = tok[0];
+  if (tok[0] == 'o' && valpos) return parse_i64(tok + 2, &r->v);
+  return parse_key(kind, tok + 2, &r->k);
 }
+#define KEYOBJ(kind, k) (kcls(kind) == CINT ? (var)$I((k).id) : kcls(kind) == CSTR ? (var)$S((k).raw) : kcls(kind) == CQ ? (var)$(QKey, (int32_t)(k).id, (uint32_t)(k).hash, 0) : (var)$(PKey, (k).id, (k).hash, NULL))
+#define VALOBJ(kind, v) (vcls(kind) == CPROBE ? (var)$(PVal, (v), NULL) : vcls(kind) == CSTR ? (var)$S(valtxt(v)) : (var)$I(v))
+static var ktype_of(int kind) { return kcls(kind) == CINT ? Int : kcls(kind) == CSTR ? String : kcls(kind) == CQ ? QKey : PKey; }
+static var vtype_of(int kind) { return vcls(kind) == CPROBE ? PVal : vcls(kind) == CSTR ? String : Int; }
+
+static var make_table(int kind) { return new_raw(Table, ktype_of(kind), vtype_of(kind)); }
 
 /* ------------------------------------------------------------------ oracle checks */
 static long n_full = 0, n_x = 0;
@@ -275,7 +313,7 @@ static void verify(var tab, int ti) {
   if (seen_n != m->count) XF("table-iter", "iteration yields %zu keys want %zu", seen_n, m->count);
   for (size_t b = 0; b < NB; b++) for (ONode* n = m->b[b]; n; n = n->next) {
     KeyTok k; memset(&k, 0, sizeof k); snprintf(k.name, sizeof k.name, "%s", n->name); k.hash = n->hash;
-    if (kind != KS) k.id = strtoll(n->name, NULL, 10); else decode_name(n->name, strlen(n->name), k.raw, sizeof k.raw);
+    if (kcls(kind) != CSTR) k.id = strtoll(n->name, NULL, 10); else decode_name(n->name, strlen(n->name), k.raw, sizeof k.raw);
     var exc; var r = NULL; V_TRY(exc, r = get(tab, KEYOBJ(kind, k)));
     if (exc) XF("table-get", "get of bound key %s raised %s", n->name, v_exc_name(exc));
     else if (val_int(kind, r) != n->val) XF("table-get", "get %s = %" PRId64 " want %" PRId64, n->name, val_int(kind, r), n->val);
@@ -306,7 +344,7 @@ static void verify(var tab, int ti) {
 
 static void probe_ledger(var* tabs) {
   long want = 0;
-  for (int i = 0; i < NT; i++) if (kinds[i] == KP) want += 2 * (long)((struct Table*)tabs[i])->nitems;
+  for (int i = 0; i < NT; i++) want += ((kcls(kinds[i]) == CPROBE) + (vcls(kinds[i]) == CPROBE)) * (long)((struct Table*)tabs[i])->nitems;
   if (probe_live != want) XF("table-probe-live", "%ld live probe elements, tables hold %ld", probe_live, want);
   if (probe_double) { XF("table-probe-double", "%ld elements destructed twice", probe_double); probe_double = 0; }
 }
@@ -351,21 +389,35 @@ int main(int argc, char** argv) {
       } else O("bad-op");
       continue;
     }
+    if (strcmp(w[0], "gc") == 0) {
+      if (nw != 1) { O("bad-op"); continue; }
+      /* a collection between two operations: managed tables (newm, copy) are reached through `tabs` on this frame and marked through
+         Table_Mark; nothing may change */
+      nops++;
+      var gexc = NULL; V_TRY(gexc, { GC_Mark(current(GC)); GC_Sweep(current(GC)); });
+      O("gc %s", gexc ? v_exc_name(gexc) : "ok");
+      if (gexc) XF("table-gc", "collection raised %s", v_exc_name(gexc));
+      for (int i = 0; i < NT; i++) verify(tabs[i], i);
+      probe_ledger(tabs);
+      continue;
+    }
     uint64_t tu;
     if (nw < 2 || !parse_u64(w[1], &tu) || tu >= NT) { O("bad-op"); continue; }
     int ti = (int)tu; int kind = kinds[ti]; struct Table* t = tabs[ti]; OMap* m = &omap[ti];
     const char* op = w[0];
     int is_key_op = (strcmp(op, "set") == 0 && nw == 4) || ((strcmp(op, "rem") == 0 || strcmp(op, "get") == 0 || strcmp(op, "mem") == 0 || strcmp(op, "getk") == 0 || strcmp(op, "getv") == 0) && nw == 3);
-    int is_pair_op = (strcmp(op, "newp") == 0 || strcmp(op, "assignm") == 0) && nw >= 3 && strlen(w[2]) == 1 && strchr("ISP", w[2][0]);
+    int is_pair_op = (strcmp(op, "newp") == 0 || strcmp(op, "assignm") == 0) && nw >= 3 && strlen(w[2]) == 1 && kind_of_char(w[2][0]) >= 0;
+    int is_ref_op = (strcmp(op, "seta") == 0 && nw == 4) || ((strcmp(op, "rema") == 0 || strcmp(op, "mema") == 0 || strcmp(op, "geta") == 0) && nw == 3);
+    RefTok rk, rv; memset(&rk, 0, sizeof rk); memset(&rv, 0, sizeof rv);
     KeyTok k; int64_t v = 0; uint64_t un = 0, src = 0; int nk = -1;
     static KeyTok pk[MAXPAIRS + 1]; static int64_t pv[MAXPAIRS + 1]; int np = 0, odd = 0;
     if (is_key_op) {
       if (!parse_key(kind, w[2], &k)) { O("bad-op"); continue; }
       if (op[0] == 's' && !parse_i64(w[3], &v)) { O("bad-op"); continue; }
       if (!seen_ok(kind, k.name, k.hash)) { O("bad-op"); continue; }
-      if (kind == KS) { uint64_t rh = hash($S(k.raw)); if (rh != k.hash) { XF("table-stale-hash", "op file says hash(%s) = %" PRIu64 ", the library says %" PRIu64, k.name, k.hash, rh); k.hash = rh; } }
+      if (kcls(kind) == CSTR) { uint64_t rh = hash($S(k.raw)); if (rh != k.hash) { XF("table-stale-hash", "op file says hash(%s) = %" PRIu64 ", the library says %" PRIu64, k.name, k.hash, rh); k.hash = rh; } }
     } else if (is_pair_op) {
-      nk = w[2][0] == 'I' ? KI : w[2][0] == 'S' ? KS : KP;
+      nk = kind_of_char(w[2][0]);
       int rest = nw - 3, bad = 0; np = rest / 2; odd = rest % 2;
       if (np > MAXPAIRS - 2 || (odd && op[0] == 'a')) bad = 1;
       for (int i = 0; i < np + odd && !bad; i++) {
@@ -375,8 +427,17 @@ int main(int argc, char** argv) {
       if (bad) { O("bad-op"); continue; }
       for (int i = 0; i < np + odd && !bad; i++) if (!seen_ok(nk, pk[i].name, pk[i].hash)) bad = 1;
       if (bad) { O("bad-op"); continue; }
-      if (nk == KS) for (int i = 0; i < np + odd; i++) { uint64_t rh = hash($S(pk[i].raw)); if (rh != pk[i].hash) { XF("table-stale-hash", "op file says hash(%s) = %" PRIu64 ", the library says %" PRIu64, pk[i].name, pk[i].hash, rh); pk[i].hash = rh; } }
-    } else if (strcmp(op, "new") == 0 && nw == 3 && strlen(w[2]) == 1 && strchr("ISP", w[2][0])) { nk = w[2][0] == 'I' ? KI : w[2][0] == 'S' ? KS : KP; }
+      if (kcls(nk) == CSTR) for (int i = 0; i < np + odd; i++) { uint64_t rh = hash($S(pk[i].raw)); if (rh != pk[i].hash) { XF("table-stale-hash", "op file says hash(%s) = %" PRIu64 ", the library says %" PRIu64, pk[i].name, pk[i].hash, rh); pk[i].hash = rh; } }
+    } else if (is_ref_op) {
+      if (!parse_ref(kind, w[2], 0, &rk) || (op[0] == 's' && !parse_ref(kind, w[3], 1, &rv))) { O("bad-op"); continue; }
+      if (!seen_ok(kind, rk.k.name, rk.k.hash) || (op[0] == 's' && !(rv.form == 'o') && !seen_ok(kind, rv.k.name, rv.k.hash))) { O("bad-op"); continue; }
+      /* key and value type are the same but the op file cannot say what the value's text hashes to */
+      if (kind == KW && (rk.form == 'v' || (op[0] == 's' && rv.form == 'k'))) { O("bad-op"); continue; }
+      if (kcls(kind) == CSTR) {
+        uint64_t rh = hash($S(rk.k.raw)); if (rh != rk.k.hash) { XF("table-stale-hash", "op file says hash(%s) = %" PRIu64 ", the library says %" PRIu64, rk.k.name, rk.k.hash, rh); rk.k.hash = rh; }
+        if (op[0] == 's' && rv.form != 'o') { rh = hash($S(rv.k.raw)); if (rh != rv.k.hash) { XF("table-stale-hash", "op file says hash(%s) = %" PRIu64 ", the library says %" PRIu64, rv.k.name, rv.k.hash, rh); rv.k.hash = rh; } }
+      }
+    } else if ((strcmp(op, "new") == 0 || strcmp(op, "newm") == 0) && nw == 3 && strlen(w[2]) == 1 && kind_of_char(w[2][0]) >= 0) { nk = kind_of_char(w[2][0]); }
     else if ((strcmp(op, "len") == 0 || strcmp(op, "iter") == 0 || strcmp(op, "riter") == 0 || strcmp(op, "check") == 0) && nw == 2) { }
     else if (strcmp(op, "resize") == 0 && nw == 3 && parse_u64(w[2], &un) && un <= 4000000) { }
     else if ((strcmp(op, "assign") == 0 || strcmp(op, "copy") == 0) && nw == 3 && parse_u64(w[2], &src) && src < NT) { }
@@ -416,6 +477,7 @@ int main(int argc, char** argv) {
       /* the key argument lives in the table's own slot array: Table_Get's address test answers without probing only for the stored key
          object of an occupied record (fix bc940bb); the value object of a record is read like any other object */
       int viakey = op[3] == 'k';
+      if (!viakey && kind == KW) { O("bad-op"); nops--; continue; }      /* String value read as a String key: the op file does not carry its hash */
       var v1 = NULL, r = NULL; V_TRY(exc, v1 = get(tabs[ti], KEYOBJ(kind, k)));
       ONode* nd = map_find(m, k.name);
       if (exc) {
@@ -441,6 +503,93 @@ int main(int argc, char** argv) {
         }
       }
       if (t->nslots != nslots0 || t->nitems != nitems0 || (small0 && checksum(t, kind) != cs0)) XF("table-changed-on-error", "%s %s changed the table", op, k.name);
+    } else if (is_ref_op) {
+      /* argument objects that may live in the table's own slot array.  Locate them first (get does not change the table). */
+      var kobj = NULL, vobj = NULL; int noobj = 0;
+      /* what the MAP says the objects hold: kerr/verr = the cast must refuse; kname/khash = the key value; vval = the value */
+      int kerr = 0, verr = 0; char kname[40]; uint64_t khash = 0; int64_t vval = 0; KeyTok kk; memset(&kk, 0, sizeof kk);
+      {
+        ONode* nd = map_find(m, rk.k.name);
+        if (rk.form == 'o') { kobj = NULL; snprintf(kname, sizeof kname, "%s", rk.k.name); khash = rk.k.hash; kk = rk.k; }
+        else {
+          var e0 = NULL, v1 = NULL; V_TRY(e0, v1 = get(tabs[ti], KEYOBJ(kind, rk.k)));
+          if ((e0 != NULL) != (nd == NULL)) XF("table-get", "get of %s key %s: %s", nd ? "bound" : "absent", rk.k.name, e0 ? v_exc_name(e0) : "a value");
+          if (e0 || !nd) noobj = 1;
+          else {
+            size_t si = (size_t)(((char*)v1 - (char*)t->data) / Table_Step(t));
+            if (rk.form == 'k') { kobj = Table_Key(t, si); snprintf(kname, sizeof kname, "%s", rk.k.name); khash = rk.k.hash; kk = rk.k; }
+            else {
+              kobj = v1;
+              if (kind == KI) { snprintf(kname, sizeof kname, "%" PRId64, nd->val); khash = (uint64_t)nd->val; kk.id = nd->val; kk.hash = khash; snprintf(kk.name, sizeof kk.name, "%s", kname); }
+              else kerr = 1;
+            }
+          }
+        }
+      }
+      if (op[0] == 's' && !noobj) {
+        if (rv.form == 'o') { vobj = NULL; vval = rv.v; }
+        else {
+          ONode* nd = map_find(m, rv.k.name);
+          var e0 = NULL, v1 = NULL; V_TRY(e0, v1 = get(tabs[ti], KEYOBJ(kind, rv.k)));
+          if ((e0 != NULL) != (nd == NULL)) XF("table-get", "get of %s key %s: %s", nd ? "bound" : "absent", rv.k.name, e0 ? v_exc_name(e0) : "a value");
+          if (e0 || !nd) noobj = 1;
+          else {
+            size_t si = (size_t)(((char*)v1 - (char*)t->data) / Table_Step(t));
+            if (rv.form == 'v') { vobj = v1; vval = nd->val; }
+            else { vobj = Table_Key(t, si); if (kind == KI) vval = rv.k.id; else verr = 1; }
+          }
+        }
+      }
+      if (noobj) { O("%s bad-op%s%s", op, op[0] == 's' || op[0] == 'r' ? " | " : "", op[0] == 's' || op[0] == 'r' ? dump(t, kind, 0, 0, 0) : ""); }
+      else {
+        int refuse = kerr || (op[0] == 's' && verr);
+        ONode* bound = refuse ? NULL : map_find(m, kname);
+        int64_t bval = bound ? bound->val : 0;
+        if (op[0] == 's') {
+          /* the outside objects are made here, in this frame; the in-table ones are the pointers found above */
+          var ka = kobj ? kobj : KEYOBJ(kind, rk.k);
+          var va = vobj ? vobj : VALOBJ(kind, rv.v);
+          V_TRY(exc, set(tabs[ti], ka, va));
+          t = tabs[ti];
+          O("seta %s | %s", exc ? v_exc_name(exc) : "ok", dump(t, kind, !refuse, khash, t->nslots != nslots0));
+          if (refuse) {
+            if (exc != ValueError) XF("table-own-object", "set with an argument object of the wrong type: %s, want ValueError", exc ? v_exc_name(exc) : "no exception");
+            if (t->nslots != nslots0 || t->nitems != nitems0 || (small0 && checksum(t, kind) != cs0)) XF("table-changed-on-error", "refused set changed the table");
+          } else {
+            if (exc) XF("table-own-object", "set(t, %s, %s) with argument objects of the table's own raised %s", w[2], w[3], v_exc_name(exc));
+            map_set(m, kname, khash, vval);
+            var r = NULL; var e2; V_TRY(e2, r = get(tabs[ti], KEYOBJ(kind, kk)));
+            if (e2) XF("table-own-object", "get after set(t, %s, %s) of key %s raised %s", w[2], w[3], kname, v_exc_name(e2));
+            else if (val_int(kind, r) != vval) XF("table-own-object", "get after set(t, %s, %s): %s -> %" PRId64 " want %" PRId64, w[2], w[3], kname, val_int(kind, r), vval);
+            if (len(tabs[ti]) != m->count) XF("table-len", "len %zu after seta, want %zu", len(tabs[ti]), m->count);
+          }
+        } else if (op[0] == 'r') {
+          var ka = kobj ? kobj : KEYOBJ(kind, rk.k);
+          V_TRY(exc, rem(tabs[ti], ka));
+          O("rema %s | %s", exc ? v_exc_name(exc) : "ok", dump(t, kind, !refuse, khash, t->nslots != nslots0));
+          if (refuse) { if (exc != ValueError) XF("table-own-object", "rem with a value object that is not of the key type: %s, want ValueError", exc ? v_exc_name(exc) : "no exception"); }
+          else if (bound) { if (exc) XF("table-own-object", "rem(t, %s) of bound key %s raised %s", w[2], kname, v_exc_name(exc)); map_rem(m, kname); }
+          else if (exc != KeyError) XF("table-keyerror", "rem(t, %s) of absent key %s: %s, want KeyError", w[2], kname, exc ? v_exc_name(exc) : "no exception");
+          if ((refuse || !bound) && (t->nslots != nslots0 || t->nitems != nitems0 || (small0 && checksum(t, kind) != cs0))) XF("table-changed-on-error", "refused rem changed the table");
+          if (!refuse && mem(tabs[ti], KEYOBJ(kind, kk))) XF("table-mem", "mem %s true after rema", kname);
+          if (len(tabs[ti]) != m->count) XF("table-len", "len %zu after rema, want %zu", len(tabs[ti]), m->count);
+        } else if (op[0] == 'm') {
+          var ka = kobj ? kobj : KEYOBJ(kind, rk.k);
+          bool r = false; V_TRY(exc, r = mem(tabs[ti], ka));
+          if (exc) O("mema %s", v_exc_name(exc)); else O("mema %d", r ? 1 : 0);
+          if (refuse) { if (exc != ValueError) XF("table-own-object", "mem with a value object that is not of the key type: %s, want ValueError", exc ? v_exc_name(exc) : "an answer"); }
+          else if (exc) XF("table-own-object", "mem(t, %s) raised %s", w[2], v_exc_name(exc));
+          else if (r != (bound != NULL)) XF("table-own-object", "mem(t, %s) = %d, the map says %d for key %s", w[2], (int)r, bound != NULL, kname);
+        } else {
+          var ka = kobj ? kobj : KEYOBJ(kind, rk.k);
+          var r = NULL; V_TRY(exc, r = get(tabs[ti], ka));
+          if (exc) O("geta %s", v_exc_name(exc)); else O("geta %" PRId64, val_int(kind, r));
+          if (refuse) { if (exc != ValueError) XF("table-get-slot-object", "get with a value object that is not of the key type: %s, want ValueError", exc ? v_exc_name(exc) : "a value"); }
+          else if (bound) { if (exc) XF("table-get-slot-object", "get(t, %s): key %s is bound, got %s", w[2], kname, v_exc_name(exc)); else if (val_int(kind, r) != bval) XF("table-get-slot-object", "get(t, %s) = %" PRId64 ", the map binds %s to %" PRId64, w[2], val_int(kind, r), kname, bval); }
+          else if (exc != KeyError) XF("table-get-slot-object", "get(t, %s): key %s is not bound, want KeyError, got %s", w[2], kname, exc ? v_exc_name(exc) : "a value");
+        }
+        if ((op[0] == 'm' || op[0] == 'g') && (t->nslots != nslots0 || t->nitems != nitems0 || (small0 && checksum(t, kind) != cs0))) XF("table-changed-on-error", "%s %s changed the table", op, w[2]);
+      }
     } else if (strcmp(op, "mem") == 0) {
       bool r = false; V_TRY(exc, r = mem(tabs[ti], KEYOBJ(kind, k)));
       if (exc) O("mem %s", v_exc_name(exc)); else O("mem %d", r ? 1 : 0);
@@ -478,9 +627,10 @@ int main(int argc, char** argv) {
         if (exc != FormatError) XF("table-resize", "resize below len: %s, want FormatError", v_exc_name(exc));
         if (t->nslots != nslots0 || t->nitems != nitems0 || (small0 && checksum(t, kind) != cs0)) XF("table-changed-on-error", "refused resize changed the table");
       } else if (exc) XF("table-resize", "resize %" PRIu64 " raised %s", un, v_exc_name(exc));
-    } else if (strcmp(op, "new") == 0) {
-      del_table(tabs, ti); tabs[ti] = make_table(nk); kinds[ti] = nk; managed[ti] = 0; map_clear(m); t = tabs[ti]; kind = nk;
-      O("new | %s", dump(t, kind, 0, 0, 1));
+    } else if (strcmp(op, "new") == 0 || strcmp(op, "newm") == 0) {
+      int mg = op[3] == 'm';
+      del_table(tabs, ti); tabs[ti] = mg ? new(Table, ktype_of(nk), vtype_of(nk)) : make_table(nk); kinds[ti] = nk; managed[ti] = mg; map_clear(m); t = tabs[ti]; kind = nk;
+      O("%s | %s", op, dump(t, kind, 0, 0, 1));
     } else if (strcmp(op, "assign") == 0) {
       V_TRY(exc, assign(tabs[ti], tabs[src]));
       kinds[ti] = kinds[src]; kind = kinds[ti];
@@ -491,12 +641,17 @@ int main(int argc, char** argv) {
       /* heap key/value objects for the argument list (stack compound literals would not outlive the loop body) */
       var ko[MAXPAIRS + 1], vo[MAXPAIRS + 1];
       for (int i = 0; i < np + odd; i++) {
-        if (nk == KI) ko[i] = new_raw(Int, $I(pk[i].id));
-        else if (nk == KS) ko[i] = new_raw(String, $S(pk[i].raw));
+        if (kcls(nk) == CINT) ko[i] = new_raw(Int, $I(pk[i].id));
+        else if (kcls(nk) == CSTR) ko[i] = new_raw(String, $S(pk[i].raw));
+        else if (kcls(nk) == CQ) { ko[i] = alloc_raw(QKey); ((struct QKey*)ko[i])->id = (int32_t)pk[i].id; ((struct QKey*)ko[i])->h = (uint32_t)pk[i].hash; ((struct QKey*)ko[i])->pad = 0; }
         else { ko[i] = alloc_raw(PKey); ((struct PKey*)ko[i])->id = pk[i].id; ((struct PKey*)ko[i])->hash = pk[i].hash; ((struct PKey*)ko[i])->tok = NULL; }
-        if (i < np) { if (nk == KP) { vo[i] = alloc_raw(PVal); ((struct PVal*)vo[i])->v = pv[i]; ((struct PVal*)vo[i])->tok = NULL; } else vo[i] = new_raw(Int, $I(pv[i])); }
+        if (i < np) {
+          if (vcls(nk) == CPROBE) { vo[i] = alloc_raw(PVal); ((struct PVal*)vo[i])->v = pv[i]; ((struct PVal*)vo[i])->tok = NULL; }
+          else if (vcls(nk) == CSTR) vo[i] = new_raw(String, $S(valtxt(pv[i])));
+          else vo[i] = new_raw(Int, $I(pv[i]));
+        }
       }
-      var kt = nk == KI ? Int : nk == KS ? String : PKey, vt = nk == KP ? PVal : Int;
+      var kt = ktype_of(nk), vt = vtype_of(nk);
       int done = 0;
       if (op[0] == 'n') {
         var items[2 * MAXPAIRS + 4]; int ni = 0;
@@ -517,7 +672,8 @@ int main(int argc, char** argv) {
       }
       if (done) { map_clear(m); for (int i = 0; i < np; i++) map_set(m, pk[i].name, pk[i].hash, pv[i]); }
       for (int i = 0; i < np + odd; i++) {
-        if (nk == KP) { dealloc_raw(ko[i]); if (i < np) dealloc_raw(vo[i]); } else { del_raw(ko[i]); if (i < np) del_raw(vo[i]); }
+        if (kcls(nk) == CPROBE || kcls(nk) == CQ) dealloc_raw(ko[i]); else del_raw(ko[i]);
+        if (i < np) { if (vcls(nk) == CPROBE) dealloc_raw(vo[i]); else del_raw(vo[i]); }
       }
       O("%s %s | %s", op, exc ? v_exc_name(exc) : "ok", dump(t, kind, 0, 0, 1));
     } else { /* copy */
